@@ -272,7 +272,9 @@ class CRDTStore(Entity):
         from happysimulator.core.temporal import Instant
 
         next_tick = Event(
-            time=Instant.from_seconds(self.now.to_seconds() + self._gossip_interval),
+            # Instant + seconds (integer nanoseconds); a float round trip could
+            # truncate back to ``now`` and re-arm the tick at a frozen clock.
+            time=max(self.now + self._gossip_interval, Instant(self.now.nanoseconds + 1)),
             event_type="GossipTick",
             target=self,
             daemon=True,
